@@ -25,6 +25,7 @@ OWN_NAMES = ["actor", "msg", "sender", "receiver", "name"]
 # further generator-owned spellings, used by the totality corpus only (never as type-check inputs; see assumptions of props/C06.py)
 OWN_NAMES_WIDE = OWN_NAMES + ["inter_send", "inter_recv", "debut", "self_", "play", "direct", "inter_msg", "inter_play_stop"]
 PARAM_NAMES = ["a", "b", "c", "x", "y", "n", "val", "key", "item", "count", "k2", "_u", "vv_"]
+RAW_PARAM_NAMES = ["r#type", "r#match", "r#move", "r#loop"]
 
 BASE_TYPES = ["i8", "u8", "u32", "i64", "String", "(u8, u8)", "Vec<u8>", "Option<u8>", "bool", "&'static str", "[u8; 3]", "Box<u8>"]
 RET_TYPES = ["i8", "u32", "String", "Vec<u8>", "Option<u8>", "(u8, i8)", "bool", "Result<u8, String>", "Result<u8, &'static str>", "std::sync::Arc<u8>"]
@@ -107,6 +108,10 @@ def gen_pattern(rng, ty_pool, names, own_names=False):
     def fresh():
         if own_names and rng.random() < 0.25:
             cand = [n for n in (OWN_NAMES_WIDE if own_names == "wide" else OWN_NAMES) if n not in names["used"]]
+            if cand:
+                n = rng.choice(cand); names["used"].add(n); return n
+        if rng.random() < 0.07:          # raw identifiers are legal binders in every position of a pattern
+            cand = [n for n in RAW_PARAM_NAMES if n not in names["used"]]
             if cand:
                 n = rng.choice(cand); names["used"].add(n); return n
         cand = [n for n in PARAM_NAMES if n not in names["used"]]
@@ -352,7 +357,10 @@ def mangled_collision(p):
 
 
 def flat_name(bound):
-    return "_".join(bound) if bound else "__"
+    """name::combined_ident: one binder is kept as written, two or more are joined without their `r#`"""
+    if len(bound) == 1:
+        return bound[0]
+    return "_".join(b[2:] if b.startswith("r#") else b for b in bound) if bound else "__"
 
 
 def field_collision(p):
